@@ -121,6 +121,14 @@ func (s *objectStore) delete(o Object) {
 	}
 }
 
+// drop forgets all the objects of a given type
+func (s *objectStore) drop(of Object) {
+	s.Lock()
+	defer s.Unlock()
+
+	delete(s.m, stype(of))
+}
+
 func (s *objectStore) count(of Object) (n int) {
 	s.RLock()
 	defer s.RUnlock()
@@ -577,6 +585,12 @@ func (db *DB) Create(o Object, s Schema) (err error) {
 
 		// async writes may just have been enabled
 		db.startAsyncWritesRoutine(es)
+
+		// cached objects are not maintained while the cache is disabled
+		// and would be stale if it gets enabled again
+		if !es.mustCache() {
+			db.cache.drop(o)
+		}
 
 		return db.saveSchema(o, es, true)
 
